@@ -5,6 +5,7 @@
 mod caplog;
 mod ctxutil;
 mod engines;
+mod front;
 mod util;
 
 use std::io::{BufRead, Write};
